@@ -259,4 +259,281 @@ theorem greedyMatching_valid (g : G) (ignored el : List (Nat × Nat))
     validMatching g ignored (greedyMatching el) = true :=
   greedyMatching_valid_of_mem g ignored el (fun _ => hperm.mem_iff)
 
+/-! ### get_rooted_minimum_span: the checker `validSpan` -/
+
+/-- one step of the fold of `validSpan` -/
+def sStep (g : G) (acc : Bool × List Nat) (pc : Nat × Nat) : Bool × List Nat :=
+  (acc.1 && g.hasEdge pc.1 pc.2 && acc.2.contains pc.1 && !acc.2.contains pc.2 && pc.2 < g.n,
+   acc.2 ++ [pc.2])
+
+theorem validSpan_eq (g : G) (root : Nat) (res : List (Nat × Nat)) :
+    validSpan g root res =
+      (res.length + 1 == g.n && root < g.n && (res.foldl (sStep g) (true, [root])).1) := rfl
+
+/-- recursive reading of the fold: every pair is an edge from a vertex already seen to a new
+vertex `< n` -/
+def SpanOK (g : G) : List Nat → List (Nat × Nat) → Prop
+  | _, [] => True
+  | seen, pc :: rest =>
+    (g.hasEdge pc.1 pc.2 = true ∧ pc.1 ∈ seen ∧ pc.2 ∉ seen ∧ pc.2 < g.n) ∧
+      SpanOK g (seen ++ [pc.2]) rest
+
+theorem sFold_iff (g : G) (res : List (Nat × Nat)) : ∀ (b : Bool) (seen : List Nat),
+    (res.foldl (sStep g) (b, seen)).1 = true ↔ b = true ∧ SpanOK g seen res := by
+  induction res with
+  | nil => intro b seen; simp [SpanOK]
+  | cons pc rest ih =>
+    intro b seen
+    rw [List.foldl_cons]
+    have hs : sStep g (b, seen) pc =
+        (b && g.hasEdge pc.1 pc.2 && seen.contains pc.1 && !seen.contains pc.2 && pc.2 < g.n,
+          seen ++ [pc.2]) := rfl
+    rw [hs, ih]
+    simp only [SpanOK, Bool.and_eq_true, Bool.not_eq_true', List.contains_eq_mem,
+      decide_eq_true_eq, decide_eq_false_iff_not]
+    constructor
+    · rintro ⟨⟨⟨⟨⟨hb, h1⟩, h2⟩, h3⟩, h4⟩, h5⟩
+      exact ⟨hb, ⟨h1, h2, h3, h4⟩, h5⟩
+    · rintro ⟨hb, ⟨h1, h2, h3, h4⟩, h5⟩
+      exact ⟨⟨⟨⟨⟨hb, h1⟩, h2⟩, h3⟩, h4⟩, h5⟩
+
+/-- index form of `SpanOK` -/
+theorem spanOK_iff (g : G) (res : List (Nat × Nat)) : ∀ (seen : List Nat),
+    SpanOK g seen res ↔
+      ∀ i (h : i < res.length), g.hasEdge res[i].1 res[i].2 = true ∧ res[i].2 < g.n ∧
+        (res[i].1 ∈ seen ∨ ∃ j, j < i ∧ (res.getD j (0, 0)).2 = res[i].1) ∧
+        res[i].2 ∉ seen ∧ ∀ j, j < i → (res.getD j (0, 0)).2 ≠ res[i].2 := by
+  induction res with
+  | nil => intro seen; simp [SpanOK]
+  | cons pc rest ih =>
+    intro seen
+    simp only [SpanOK]
+    rw [ih]
+    constructor
+    · rintro ⟨⟨h1, h2, h3, h4⟩, h5⟩ i hi
+      cases i with
+      | zero =>
+        simp only [List.getElem_cons_zero]
+        exact ⟨h1, h4, Or.inl h2, h3, fun j hj => absurd hj (Nat.not_lt_zero j)⟩
+      | succ i =>
+        simp only [List.getElem_cons_succ]
+        have hi' : i < rest.length := by simpa using hi
+        obtain ⟨a1, a2, a3, a4, a5⟩ := h5 i hi'
+        refine ⟨a1, a2, ?_, fun hm => a4 (by simp [hm]), ?_⟩
+        · rcases a3 with a3 | ⟨j, hj, a3⟩
+          · rw [List.mem_append] at a3
+            rcases a3 with a3 | a3
+            · exact Or.inl a3
+            · refine Or.inr ⟨0, by omega, ?_⟩
+              simp only [List.mem_cons, List.not_mem_nil, or_false] at a3
+              simp [a3]
+          · exact Or.inr ⟨j + 1, by omega, by simpa using a3⟩
+        · intro j hj
+          cases j with
+          | zero =>
+            simp only [List.getD_cons_zero]
+            intro h
+            exact a4 (by simp [h])
+          | succ j =>
+            simp only [List.getD_cons_succ]
+            exact a5 j (by omega)
+    · intro h
+      have h0 := h 0 (by simp)
+      simp only [List.getElem_cons_zero] at h0
+      obtain ⟨a1, a2, a3, a4, _⟩ := h0
+      refine ⟨⟨a1, ?_, a4, a2⟩, fun i hi => ?_⟩
+      · rcases a3 with a3 | ⟨j, hj, _⟩
+        · exact a3
+        · omega
+      · have hs := h (i + 1) (by simpa using hi)
+        simp only [List.getElem_cons_succ] at hs
+        obtain ⟨b1, b2, b3, b4, b5⟩ := hs
+        refine ⟨b1, b2, ?_, ?_, fun j hj => ?_⟩
+        · rcases b3 with b3 | ⟨j, hj, b3⟩
+          · exact Or.inl (by simp [b3])
+          · cases j with
+            | zero =>
+              simp only [List.getD_cons_zero] at b3
+              exact Or.inl (by simp [b3])
+            | succ j =>
+              simp only [List.getD_cons_succ] at b3
+              exact Or.inr ⟨j, by omega, b3⟩
+        · rw [List.mem_append]
+          rintro (hm | hm)
+          · exact b4 hm
+          · simp only [List.mem_cons, List.not_mem_nil, or_false] at hm
+            have := b5 0 (by omega)
+            simp only [List.getD_cons_zero] at this
+            exact this hm.symm
+        · have := b5 (j + 1) (by omega)
+          simpa using this
+
+/-- meaning of the checker `validSpan`: `n - 1` pairs; the `i`-th pair is an edge of `g` whose
+parent is the root or an earlier child and whose child is `< n`, not the root and not an
+earlier child.  (`getD` is only evaluated at `j < i < res.length`.) -/
+theorem validSpan_iff (g : G) (root : Nat) (res : List (Nat × Nat)) :
+    validSpan g root res = true ↔
+      res.length + 1 = g.n ∧ root < g.n ∧
+      (∀ i (h : i < res.length), g.hasEdge res[i].1 res[i].2 = true ∧ res[i].2 < g.n ∧
+        (res[i].1 = root ∨ ∃ j, j < i ∧ (res.getD j (0, 0)).2 = res[i].1) ∧
+        res[i].2 ≠ root ∧ ∀ j, j < i → (res.getD j (0, 0)).2 ≠ res[i].2) := by
+  rw [validSpan_eq, Bool.and_eq_true, Bool.and_eq_true, sFold_iff, spanOK_iff, beq_iff_eq,
+    decide_eq_true_eq]
+  simp only [true_and, List.mem_cons, List.not_mem_nil, or_false, and_assoc]
+
+/-! #### consequences: a spanning tree -/
+
+theorem spanOK_edges (g : G) (res : List (Nat × Nat)) : ∀ (seen : List Nat),
+    SpanOK g seen res → ∀ pc ∈ res, g.hasEdge pc.1 pc.2 = true := by
+  induction res with
+  | nil => intro _ _ pc hpc; simp at hpc
+  | cons a rest ih =>
+    intro seen h pc hpc
+    rw [List.mem_cons] at hpc
+    rcases hpc with rfl | hpc
+    · exact h.1.1
+    · exact ih _ h.2 pc hpc
+
+/-- the vertices met are pairwise different and `< n` -/
+theorem spanOK_nodup (g : G) (res : List (Nat × Nat)) : ∀ (seen : List Nat),
+    SpanOK g seen res → seen.Nodup → (∀ v ∈ seen, v < g.n) →
+    (seen ++ res.map (·.2)).Nodup ∧ ∀ v ∈ seen ++ res.map (·.2), v < g.n := by
+  induction res with
+  | nil => intro seen _ h1 h2; simpa using ⟨h1, h2⟩
+  | cons a rest ih =>
+    intro seen h h1 h2
+    have h1' : (seen ++ [a.2]).Nodup := by
+      rw [List.nodup_append]
+      refine ⟨h1, by simp, ?_⟩
+      intro x hx y hy hxy
+      simp only [List.mem_cons, List.not_mem_nil, or_false] at hy
+      exact h.1.2.2.1 (hy ▸ hxy ▸ hx)
+    have h2' : ∀ v ∈ seen ++ [a.2], v < g.n := by
+      intro v hv
+      rw [List.mem_append] at hv
+      rcases hv with hv | hv
+      · exact h2 v hv
+      · simp only [List.mem_cons, List.not_mem_nil, or_false] at hv
+        exact hv ▸ h.1.2.2.2
+    have := ih (seen ++ [a.2]) h.2 h1' h2'
+    simpa [List.append_assoc] using this
+
+/-- induction along the listing: a property of the seen vertices that is passed from parent
+to child holds for every vertex met -/
+theorem spanOK_induct (g : G) (P : Nat → Prop) (res : List (Nat × Nat)) : ∀ (seen : List Nat),
+    SpanOK g seen res → (∀ pc ∈ res, P pc.1 → P pc.2) → (∀ v ∈ seen, P v) →
+    ∀ v ∈ seen ++ res.map (·.2), P v := by
+  induction res with
+  | nil => intro seen _ _ h v hv; exact h v (by simpa using hv)
+  | cons a rest ih =>
+    intro seen h hstep hseen v hv
+    have hseen' : ∀ v ∈ seen ++ [a.2], P v := by
+      intro v hv
+      rw [List.mem_append] at hv
+      rcases hv with hv | hv
+      · exact hseen v hv
+      · simp only [List.mem_cons, List.not_mem_nil, or_false] at hv
+        exact hv ▸ hstep a (by simp) (hseen _ h.1.2.1)
+    exact ih (seen ++ [a.2]) h.2 (fun pc hpc => hstep pc (by simp [hpc])) hseen' v
+      (by simpa [List.append_assoc] using hv)
+
+/-- the graph on the same vertices having exactly the listed pairs as edges -/
+def treeOf (g : G) (res : List (Nat × Nat)) : G := ⟨g.n, res.map norm⟩
+
+theorem treeOf_hasEdge_of_mem (g : G) (res : List (Nat × Nat)) {pc : Nat × Nat} (h : pc ∈ res) :
+    (treeOf g res).hasEdge pc.1 pc.2 = true := by
+  rw [G.hasEdge_iff]
+  exact List.mem_map.2 ⟨pc, h, rfl⟩
+
+/-- consequences of acceptance: every vertex is the root or a listed child, is connected to the
+root using only the listed pairs (hence `g` is connected and the `n - 1` listed pairs form a
+spanning tree), and no vertex is listed twice as a child. -/
+theorem validSpan_spanning (g : G) (root : Nat) (res : List (Nat × Nat))
+    (h : validSpan g root res = true) :
+    (∀ v, v < g.n → v = root ∨ ∃ pc ∈ res, pc.2 = v) ∧
+    (∀ v, v < g.n → Reach ⟨g.n, res.map norm⟩ root v) ∧
+    (∀ v, v < g.n → Reach g root v) ∧ (res.map (·.2)).Nodup ∧ root ∉ res.map (·.2) := by
+  rw [validSpan_eq, Bool.and_eq_true, Bool.and_eq_true, sFold_iff, beq_iff_eq,
+    decide_eq_true_eq] at h
+  obtain ⟨⟨hlen, hroot⟩, _, hok⟩ := h
+  obtain ⟨hnd, hlt⟩ := spanOK_nodup g res [root] hok (by simp) (by simpa using hroot)
+  have hfull : ∀ v, v < g.n → v ∈ [root] ++ res.map (·.2) :=
+    nodup_lt_full hnd hlt (by simp; omega)
+  have hnd' := hnd
+  simp only [List.cons_append, List.nil_append, List.nodup_cons] at hnd'
+  refine ⟨fun v hv => ?_, fun v hv => ?_, fun v hv => ?_, hnd'.2, hnd'.1⟩
+  · have := hfull v hv
+    simp only [List.cons_append, List.nil_append, List.mem_cons, List.mem_map] at this
+    rcases this with h | ⟨pc, hpc, h⟩
+    · exact Or.inl h
+    · exact Or.inr ⟨pc, hpc, h⟩
+  · exact spanOK_induct g (fun v => Reach (treeOf g res) root v) res [root] hok
+      (fun pc hpc hp => Reach.step hp (treeOf_hasEdge_of_mem g res hpc))
+      (fun v hv => by simp at hv; subst hv; exact Reach.refl _) v (hfull v hv)
+  · exact spanOK_induct g (fun v => Reach g root v) res [root] hok
+      (fun pc hpc hp => Reach.step hp (spanOK_edges g res _ hok pc hpc))
+      (fun v hv => by simp at hv; subst hv; exact Reach.refl _) v (hfull v hv)
+
+/-- the listed pairs are edges of `g` (in either orientation): the tree is a subgraph -/
+theorem validSpan_subgraph (g : G) (root : Nat) (res : List (Nat × Nat))
+    (h : validSpan g root res = true) (a b : Nat)
+    (hab : (G.mk g.n (res.map norm)).hasEdge a b = true) : g.hasEdge a b = true := by
+  rw [validSpan_eq, Bool.and_eq_true, Bool.and_eq_true, sFold_iff] at h
+  rw [G.hasEdge_iff] at hab
+  obtain ⟨pc, hpc, hn⟩ := List.mem_map.1 hab
+  have := spanOK_edges g res _ h.2.2 pc hpc
+  rw [G.hasEdge_iff] at this ⊢
+  rw [← hn]
+  exact this
+
+/-! ### non-vacuity -/
+section examples
+
+/-- the path 0 - 1 - 2 - 3 -/
+private def p4 : G := ⟨4, [(0, 1), (1, 2), (2, 3)]⟩
+/-- the 4-cycle with a chord -/
+private def c4 : G := ⟨4, [(0, 1), (1, 2), (2, 3), (0, 3), (0, 2)]⟩
+
+-- accepted matchings (the second one is maximal but not maximum)
+example : validMatching p4 [] [(0, 1), (2, 3)] = true := by decide
+example : validMatching p4 [] [(1, 2)] = true := by decide
+-- rejected: not maximal ((2,3) could be added)
+example : validMatching p4 [] [(0, 1)] = false := by decide
+-- rejected: uses an edge that is ignored in the other orientation
+example : validMatching p4 [(1, 0)] [(0, 1), (2, 3)] = false := by decide
+-- with that edge ignored the remaining maximal matchings are accepted
+example : validMatching p4 [(1, 0)] [(1, 2)] = true ∧ validMatching p4 [(1, 0)] [(2, 3)] = true := by
+  decide
+-- rejected: two edges sharing the vertex 1; an edge listed twice; a non-edge; a reversed edge
+example : validMatching p4 [] [(0, 1), (1, 2)] = false := by decide
+example : validMatching p4 [] [(0, 1), (0, 1), (2, 3)] = false := by decide
+example : validMatching p4 [] [(0, 2), (1, 3)] = false := by decide
+example : validMatching p4 [] [(1, 0), (2, 3)] = false := by decide
+-- the greedy loop: the result depends on the enumeration order, both are accepted
+example : greedyMatching [(0, 1), (1, 2), (2, 3)] = [(0, 1), (2, 3)] ∧
+    greedyMatching [(1, 2), (0, 1), (2, 3)] = [(1, 2)] := by decide
+example : [(1, 2), (0, 1), (2, 3)].Perm (candidateEdges p4 []) ∧
+    validMatching p4 [] (greedyMatching [(1, 2), (0, 1), (2, 3)]) = true := by decide
+example : [(2, 3), (1, 2)].Perm (candidateEdges p4 [(1, 0)]) ∧
+    validMatching p4 [(1, 0)] (greedyMatching [(2, 3), (1, 2)]) = true := by decide
+
+-- accepted spans of the path rooted at 1, in both depth-first orders
+example : validSpan p4 1 [(1, 0), (1, 2), (2, 3)] = true := by decide
+example : validSpan p4 1 [(1, 2), (2, 3), (1, 0)] = true := by decide
+-- rejected: child (2,3) listed before its parent edge (1,2)
+example : validSpan p4 1 [(2, 3), (1, 2), (1, 0)] = false := by decide
+-- rejected: (1,3) is not an edge
+example : validSpan p4 1 [(1, 3), (1, 2), (1, 0)] = false := by decide
+-- rejected: vertex 3 missing; a vertex listed twice as a child; the root listed as a child
+example : validSpan p4 1 [(1, 2), (1, 0)] = false := by decide
+example : validSpan p4 1 [(1, 2), (1, 0), (1, 2)] = false := by decide
+example : validSpan p4 1 [(1, 2), (2, 1), (1, 0)] = false := by decide
+-- rejected: root out of range; a disconnected graph has no accepted span
+example : validSpan p4 4 [(1, 0), (1, 2), (2, 3)] = false := by decide
+example : validSpan ⟨3, [(0, 1)]⟩ 0 [(0, 1)] = false := by decide
+-- one vertex: the empty list
+example : validSpan ⟨1, []⟩ 0 [] = true := by decide
+
+end examples
+
 end BqVerif.Graph
